@@ -32,6 +32,15 @@ class StopSentinel:  # pylint: disable=too-few-public-methods
     """
 
 
+class _RaisedException:  # pylint: disable=too-few-public-methods
+    """An exception raised by the mapped function inside a worker thread. It
+    is passed to the consumer through the results queue and re-raised there.
+    """
+
+    def __init__(self, exception: BaseException) -> None:
+        self.exception: BaseException = exception
+
+
 class LazyPool:
     """Lazy version of `concurrent.futures.ThreadPoolExecutor.map`. Allows to
     iterate content of shards without reading all of them into memory if they
@@ -148,6 +157,11 @@ class LazyPool:
             if isinstance(next_result, StopSentinel):
                 self._active_threads -= 1
                 continue
+            if isinstance(next_result, _RaisedException):
+                # The mapped function failed. Stop all threads and let the
+                # consumer know instead of waiting forever.
+                self.finish_and_reset()
+                raise next_result.exception
 
             # New element to be processed. After the potentially finite
             # `iterator` we append an infinite number of `StopSentinel`s so the
@@ -215,5 +229,11 @@ class Collector(threading.Thread):
                 return
 
             # Can be blocking, but should be short.
-            self._results.put(self.func(element))
+            try:
+                result = self.func(element)
+            except Exception as exc:  # pylint: disable=broad-exception-caught
+                # Do not die silently, the consumer would wait forever.
+                self._results.put(_RaisedException(exc))
+                continue
+            self._results.put(result)
             time.sleep(0.0)  # Give up GIL.
